@@ -12,7 +12,7 @@ def run(ctx):
         slim=lambda c: {k: c.get(k) for k in ("id", "front", "src", "findings", "unused")},
         facts=lambda c, reason: {"reason": reason, "front": c["front"]},
         what=lambda c, reason: "%s [%s] %r: %s" % (c["id"], c["front"], c["src"], reason),
-        vec_filter=(None if th else (lambda v: v)), sharded=4 if th else 0)
+        vec_filter=(None if th else (lambda v: v)), sharded=12 if th else 0)
     recs = vlib.read_ndjson(rec) if n < 40000 else []
     nontriv = set()
     for x in recs:
